@@ -145,7 +145,7 @@ def run_ext(cases, shards=None):
     return D.run_impl([D.mkcase(d, o, v + '+x') for d, o, v in cases], shards)
 
 # ------------------------------------------------------------------ histories
-RICH3 = '<!DOCTYPE r [<!ENTITY e "v">]><r k="v" p:k="w" xmlns:p="u"><a x="1" p:x="2"><b>t<i/></b>s</a><!--m--><c x="3"/>w<![CDATA[d]]><?pi z?>&e;&#65;</r>'
+RICH3 = '<!DOCTYPE r [<!ENTITY e "v">]><r k="v" p:k="w" xmlns:p="u"><a x="1" p:x="2"><b>t<i/></b>s</a><!--m--><c x="3" xmlns="d"/>w<![CDATA[d]]><?pi z?>&e;&#65;</r>'
 
 def attr_matrix_cases():
     """single attribute calls from a state with same-named attributes on two elements, prefixed attributes,
@@ -344,6 +344,8 @@ def classify13(f):
         return ('C13-DOC-MOVE', 'the Document refuses to move or replace its document element / document type (HIERARCHY_REQUEST_ERR): the cardinality test counts the node that the call itself takes out')
     if k in ('CT', 'CC', 'CD') and impl == 'panic' and spec == 'err:refused':
         return ('D42', 'argument of create_text_node / create_comment / create_cdata_section is not storable: the factory unwraps the validation result and panics (its signature has no Result)')
+    if k == 'NR' and op[2] == 'xmlns' and impl == 'err:NotFoundErr' and spec.startswith('ok:'):
+        return ('C13-NS-HIDDEN', 'the default namespace declaration (attribute xmlns) is not in the attributes() map: remove_named_item("xmlns") answers NOT_FOUND_ERR although the element has the attribute')
     if k in ('CP', 'CR') and isinstance(op[2], str) and is_name_start_problem(op[2]) and spec == 'err:InvalidCharacterErr' and impl.startswith(('ok', 'err:info')):
         return ('D04', 'production name/pi_target accepts a string whose first character is a NameChar but not a NameStartChar (or the empty string)')
     return None
